@@ -36,7 +36,7 @@ class BroadcastError(RuntimeFailure):
 
 #: documented domains of the state atoms the rules use (degrees); np.clip consults them
 DOMAINS = {'pitch': (-90, 90), 'lat': (-90, 90), 'roll': (-360, 360), 'heading': (-360, 360),
-           'lon': (-360, 360)}
+           'lon': (-360, 360), 'alt': (0, 20000)}
 
 #: repository functions that were used through a summary instead of being inlined; the rules
 #: that establish each summary are run by props.run whenever it was used
@@ -1398,6 +1398,24 @@ class SymEval:
     def store(self, base, idx, v, node=None):
         if isinstance(v, (list, tuple)):
             v = self.to_array(v)
+        if isinstance(base, SArray) and hasattr(self.A, 'func') and (
+                idx is UNK or (isinstance(idx, Opaque) and idx.tag in ('unknown', 'cmp', 'binop',
+                                                                       'unop', 'compare'))):
+            # a store selected by a condition the analysis does not decide (a boolean mask over
+            # the samples): afterwards every entry is EITHER its old value or the stored one -
+            # an uninterpreted function of the two, so that whatever is derived from it is no
+            # longer recognised as the unmasked expression
+            self._mask_id = getattr(self, '_mask_id', 0) + 1
+            tag = self.A.const(self._mask_id)
+            for i in list(base.indices()):
+                try:
+                    old_ = self.rat(base.get(i))
+                except Unsupported:
+                    continue
+                new_ = self.rat(v.get(i[len(i) - len(v.shape):])) if isinstance(v, SArray) \
+                    else self.rat(v)
+                base.entries[i] = self.A.func('masked', tag, old_, new_)
+            return
         if isinstance(base, SArray):
             if self.stacked and getattr(base, 'lead_one', False):
                 # stacked form: an array allocated with leading length 1 cannot take one value
@@ -2077,6 +2095,16 @@ class SymEval:
             if isinstance(v_, Rat) and A.is_const(v_):
                 return float(A.const_of(v_))
             return None
+        if isinstance(args[0], Rat) and isinstance(args[1], Rat) and \
+                not A.is_const(args[0]) and not A.is_const(args[1]):
+            # max(x, y) / min(x, y) of two expressions: a genuinely two-armed function when the
+            # documented domain holds a point with x < y AND one with x > y
+            d_ = A.sub(args[0], args[1])
+            lo_w = self._witness(d_, below=True)
+            hi_w = self._witness(d_, below=False)
+            if lo_w is not None and hi_w is not None:
+                return A.func('max' if want_max else 'min', args[0], args[1])
+            return None
         for x, c in ((args[0], args[1]), (args[1], args[0])):
             cv = num(c)
             if cv is None or not isinstance(x, Rat) or A.is_const(x):
@@ -2137,6 +2165,49 @@ class SymEval:
             if w is None:
                 return None
             return A.func('max' if want_max else 'min', x, self.rat(c))
+        return None
+
+    def _witness(self, d, below):
+        """a point of the documented domain of the atoms of d where d < 0 (below) / d > 0; None
+        when some atom has no documented domain or no point of the grid qualifies"""
+        import itertools
+        import math as _m
+        A = self.A
+        if self.names_as_atoms:
+            try:
+                d = self.expand(d)
+            except Unsupported:
+                pass
+        leaves = set()
+        try:
+            A.numeval(d, lambda at: (leaves.add(at), 0.3)[1])
+        except (ValueError, OverflowError, ZeroDivisionError):
+            pass
+        doms, fixed = {}, {}
+        for at in leaves:
+            if at == A.D2R:
+                fixed[at] = _m.pi / 180
+            elif at in getattr(A, 'numeric', {}):
+                fixed[at] = float(A.numeric[at])
+            else:
+                dm = self._domain_of(at)
+                if dm is None:
+                    return None
+                doms[at] = dm
+        if not doms or len(doms) > 3:
+            return None
+        names = sorted(doms)
+        axes = [[lo + (hi - lo) * f_ for f_ in (0.005, 0.03, 0.25, 0.5, 0.75, 0.97, 0.995)]
+                for lo, hi in (doms[n_] for n_ in names)]
+        for pt in itertools.product(*axes):
+            env_ = dict(zip(names, pt))
+            env_.update(fixed)
+            try:
+                val, mag = A.numeval(d, lambda at: env_[at])
+            except (ValueError, OverflowError, ZeroDivisionError, KeyError):
+                continue
+            if (below and val < -1e-9 * max(1.0, mag)) or (not below and val > 1e-9 * max(1.0, mag)):
+                return env_
         return None
 
     def isinstance_(self, v, tnode):
